@@ -1,6 +1,7 @@
 package props
 
 import (
+	cmtcrypto "github.com/cometbft/cometbft/proto/tendermint/crypto"
 	"fmt"
 	"math/big"
 	"sort"
@@ -577,7 +578,7 @@ func (c *c15) hostRefresh(o *OracleEnv, rng *mon.Rand, log *[]string) {
 	nv := newHostVals(powers, gen)
 	if rng.Chance(40) && len(o.Host) > 2 {
 		// the new set overlaps the recorded one: some validators stay (same key, new power), some leave, some join
-		keep := 1 + rng.Intn(len(o.Host)-1)
+		keep := 1 + rng.Intn(len(o.Host)) // up to all of them: the same members with other powers
 		for i := 0; i < keep && i < len(nv); i++ {
 			nv[i] = o.Host[i]
 			nv[i].Power = powers[i]
@@ -596,9 +597,26 @@ func (c *c15) hostRefresh(o *OracleEnv, rng *mon.Rand, log *[]string) {
 			v.Address = o.Host[i%len(o.Host)].Addr()
 		}
 	}
-	err := l2.K.UpdateHostValidatorSet(l2.Ctx, client, height, vs)
+	broken := ""
+	if rng.Chance(15) && len(vs.Validators) > 2 {
+		// one entry in the middle of the refresh carries a key that cannot be decoded: the refresh fails as a whole
+		k := 1 + rng.Intn(len(vs.Validators)-2)
+		vs.Validators[k].PubKey = cmtcrypto.PublicKey{}
+		broken = fmt.Sprintf(" (entry %d has no usable key)", k)
+	}
+	// the refresh is part of a transaction (the light-client update): its writes are kept only if it reports success
+	cctx, write := l2.Ctx.CacheContext()
+	err := l2.K.UpdateHostValidatorSet(cctx, client, height, vs)
+	if err == nil {
+		write()
+	}
 	run.Evaluations++
 	hAfter, setAfter := o.HostSetState()
+	if broken != "" && client == o.ClientID && height > hBefore {
+		run.Check("C15.host_set_only_replaced_by_higher_height_from_client", err != nil && setString(setBefore) == setString(setAfter) && hBefore == hAfter, "c15.broken_refresh_left_traces", tail(append(*log, fmt.Sprintf("host_set_refresh client=%q height=%d%s -> err=%v", client, height, broken, err)), 15), "a refresh that cannot be decoded completely%s reported err=%v and left the recorded set {%s} (height %d), before it was {%s} (height %d)", broken, err, setString(setAfter), hAfter, setString(setBefore), hBefore)
+		*log = append(*log, fmt.Sprintf("host_set_refresh client=%q height=%d%s -> err=%v", client, height, broken, err))
+		return
+	}
 	if err == nil && client == o.ClientID && height > hBefore {
 		want := map[string]int64{}
 		for _, v := range nv {
